@@ -52,6 +52,90 @@ def is_call(e, attr, recv=None):
         (recv is None or src(e.func.value) == recv)
 
 
+
+def r067(model, rep, arm):
+    """Arm.numericalJacobian probes FK at perturbed joint vectors through a closure that WRITES the arm's state (FK stores joints and
+    tool pose).  The arm must be left at the configuration the Jacobian was asked for: either the finite-difference driver ends by
+    calling the handle at the unperturbed point, or the method itself calls FK(theta) after the driver.  Otherwise every
+    default-argument Jacobian / pose query afterwards is evaluated at the last probe point."""
+    from ..engine.paths import paths_of
+    rep.rule('R06.7', 'numericalJacobian leaves the arm at the configuration it was evaluated at (the state-writing FK closure is last '
+                      'called at the unperturbed joint vector, by the finite-difference driver or by the method)')
+    nj = arm.methods.get('numericalJacobian')
+    if nj is None:
+        raise AnalysisError('anchor vanished: Arm.numericalJacobian')
+
+    def writes_state(body, params):
+        return any(isinstance(c, ast.Call) and src(c.func) == 'self.FK' and c.args and isinstance(c.args[0], ast.Name) and c.args[0].id in params
+                   for c in ast.walk(body))
+    handles = set()
+    for st in walk_own(nj.node):
+        if isinstance(st, ast.Assign) and len(st.targets) == 1 and isinstance(st.targets[0], ast.Name) and isinstance(st.value, ast.Lambda):
+            if writes_state(st.value.body, {a.arg for a in st.value.args.args}):
+                handles.add(st.targets[0].id)
+    for st in nj.node.body:
+        if isinstance(st, ast.FunctionDef) and writes_state(st, {a.arg for a in st.args.args}):
+            handles.add(st.name)
+    drivers = []
+    for st in nj.node.body:
+        for c in ast.walk(st):
+            if isinstance(c, ast.Call):
+                hidx = [k for k, a_ in enumerate(c.args) if (isinstance(a_, ast.Name) and a_.id in handles)
+                        or (isinstance(a_, ast.Lambda) and writes_state(a_.body, {x.arg for x in a_.args.args}))]
+                if hidx:
+                    drivers.append((st, c, hidx[0]))
+    rep.ob('R06.7', nj, 'state-writing FK closure handed to a finite-difference driver', bool(drivers),
+           'no call that receives a closure over self.FK: the numerical Jacobian is written in a form this rule does not recognise', shape=True)
+    n = 0
+    for st, c, hk in drivers:
+        r = model.resolve_call(nj, c)
+        if not r or r[0] != 'func':
+            rep.ob('R06.7', nj, src(c.func), False, 'driver %s cannot be resolved' % src(c.func), shape=True, line=c.lineno)
+            continue
+        drv = r[1]
+        n += 1
+        hp = drv.params[hk] if hk < len(drv.params) else None
+
+        def unwrap(t):
+            e = ast.parse(t, mode='eval').body
+            while isinstance(e, ast.Call) and norm_text(e.func).split('.')[-1] in ('asarray', 'copy', 'array', 'asfarray', 'ascontiguousarray') and e.args:
+                e = e.args[0]
+            return norm_text(e)
+        restored_by_driver = None
+        paths = [p_ for p_ in paths_of(drv.node, drv.params) if p_.kind == 'return']
+        if hp is not None and paths:
+            restored_by_driver = True
+            for p_ in paths:
+                hc = [e for e in p_.events if e[0] == 'call' and e[1] == hp]
+                last = hc[-1] if hc else None
+                xp = unwrap(last[2][0]) if last is not None and len(last[2]) == 1 else None
+                if xp is None or xp not in drv.params or drv.params.index(xp) >= len(c.args):
+                    restored_by_driver = False
+                    break
+                point = src(c.args[drv.params.index(xp)])
+        if restored_by_driver:
+            rep.ob('R06.7', nj, '%s ends with %s(%s)' % (drv.name, hp, xp), True, 'the driver resets the closure at the unperturbed point `%s`' % point, line=c.lineno)
+            continue
+        # the driver leaves the closure at a probe point: the method must re-establish FK(point) itself, after the driver call
+        xs = [src(a_) for k, a_ in enumerate(c.args) if k != hk and isinstance(a_, ast.Name)]
+        later = nj.node.body[nj.node.body.index(st) + 1:]
+
+        def definite_fk(stmts):
+            for s_ in stmts:
+                if isinstance(s_, (ast.Expr, ast.Assign, ast.Return)):
+                    if any(isinstance(x, ast.Call) and src(x.func) == 'self.FK' and x.args and src(x.args[0]) in xs for x in ast.walk(s_)):
+                        return True
+                elif isinstance(s_, ast.For) and isinstance(s_.iter, ast.Call) and src(s_.iter.func) == 'range' \
+                        and src(s_.iter.args[-1] if len(s_.iter.args) < 3 else s_.iter.args[1]) in ('self.num_dof', 'len(%s)' % (xs[0] if xs else '?')):
+                    if definite_fk(s_.body):        # num_dof >= 1: the body runs
+                        return True
+            return False
+        rep.ob('R06.7', nj, 'FK(unperturbed joints) after %s' % drv.name, definite_fk(later),
+               '%s no longer ends by calling the closure at the unperturbed point, and numericalJacobian does not call FK(%s) after it: the arm '
+               'is left at the last probe configuration (joint vector off by the finite-difference step), so jacobianBody() / getEEPos() / '
+               'jacobianEETrans() with default arguments are evaluated at the wrong configuration' % (drv.name, xs[0] if xs else 'theta'), line=c.lineno)
+    rep.floor('R06.7', 'finite-difference drivers fed a state-writing closure', n, 1)
+
 def statics_table(model, rep, robot, rule):
     """the 2x2 statics table of Robot (shared by C06 R06.3 and C11 R11.4)"""
     def M(ci, name):
@@ -280,5 +364,6 @@ def check(model, rep):
     n = closure_obligations(model, rep, 'R06.5', [arm.methods[m] for m in ('jacobian', 'jacobianBody', 'jacobianLink', 'jacobianEETrans', 'numericalJacobian', 'FKLink', '_helper_refresh_body_screws') if m in arm.methods],
                             'the arm Jacobians (JacobianSpace / JacobianBody / Adjoint)')
     rep.floor('R06.5', 'shared primitives under the arm Jacobians', len(n), 6)
+    r067(model, rep, arm)
     r050(model, rep, rule='R06.0')
     rep.rules['R06.0'] = 'np.<attr> used by the arm / robot modules exist (an Arm can be constructed at all)'
